@@ -80,6 +80,7 @@ type Config struct {
 	PoolDropPct  int
 	FPYieldPct   int // percent of FP sites that are yield points in this run (0: none)
 	ClockVaryPct int // percent of clock reads that see a non-canonical step (stall, fine step, jump)
+	CPUVary      bool // the CPU count the library is told differs from the canonical 4
 
 	// failpoint panic: the PanicAtHit-th FP hit (1-based, counted among
 	// panic-capable sites while armed) panics. Armed per operation by the harness.
@@ -137,6 +138,7 @@ type runtimeState struct {
 	fpHitNo   int
 	fpPanicAt int
 	fpFiredAt int32
+	cpus      int // CPU count told to the library in this run (0: not asked yet)
 
 	// event ring for display
 	ring  [ringSize]uint64
@@ -461,6 +463,7 @@ func Begin(cfg Config) {
 	resetAddrs()
 	resetChans()
 	resetClock()
+	R.cpus = 0
 }
 
 // Run executes fns as simulated tasks until all have finished and returns.
